@@ -1,7 +1,13 @@
 use std::mem;
 use std::ptr;
+#[cfg(not(feature = "multiqueue2_verif"))]
 use std::sync::atomic::{AtomicUsize, Ordering};
+#[cfg(not(feature = "multiqueue2_verif"))]
 use std::sync::Mutex;
+#[cfg(feature = "multiqueue2_verif")]
+use crate::verif_hooks::{std_sync::Mutex, AtomicUsize};
+#[cfg(feature = "multiqueue2_verif")]
+use std::sync::atomic::Ordering;
 
 use crate::alloc;
 use crate::atomicsignal::AtomicSignal;
